@@ -19,7 +19,7 @@ TRUSTED_BASE = [
 
 
 # evidence level per property (kept in step with MANIFEST.json by gen_manifest.py)
-LEVELS = {'C07': 'other'}
+LEVELS = {}
 EXPLAIN = {
     'C01': 'theorems pending (simulation proof in progress): this run is a three-way differential comparison implementation / Lean reference semantics / Python reference, plus the validators shapeCheck and wfCheck on every compiled program',
     'C07': 'no theorem for the main statement yet: complete stepping runs of the implementation compared with an independent instrumented reference interpreter (visited lines and variable views at every stop)',
